@@ -63,6 +63,25 @@ def cases(rng, tier):
             init = [rng.randint(0, 9) for _ in keys]
         batches = [_batch(rng, keys, absent) for _ in range(rng.randint(1, 5))]
         out.append({"keys": keys, "kdtype": dt, "mod": mod, "init": init, "batches": batches, "pseed": rng.randint(0, 999)})
+    # BIG batches (tens of thousands of samples in one call): long stretches without any key followed by keys, uneven repetition,
+    # non-keys smaller and larger than the keys, non-keys in empty and in occupied buckets
+    plan = [(70000, "nokey_then_keys"), (12000, "mixed"), (rng.choice([65536, 131072, 10001]), rng.choice(["nokey_then_keys", "mixed"]))]
+    if tier != "quick":
+        plan = plan * 4
+    for n, kind in plan:
+        dt = rng.choice(["int64", "int32", "uint64"])
+        keys = htgen.key_set(rng, dt)
+        while len(keys) < 4:
+            keys = htgen.key_set(rng, dt)
+        mod = rng.choice([None, 7, 2 * len(keys) - 1, 1000])
+        absent = htgen.absent_keys(rng, keys, dt, mod) or [max(keys) + 1]
+        absent = [a for a in absent if a not in keys] + [min(keys) - 1 if min(keys) > np.iinfo(dt).min else max(keys) + 2]
+        absent = [a for a in absent if a not in keys and np.iinfo(dt).min <= a <= np.iinfo(dt).max]
+        rep = absent[:5] if kind == "nokey_then_keys" else (absent[:3] + [keys[0]] * 3 + [keys[1]] + keys[2:4] * 2)
+        tail = [rng.choice(keys) for _ in range(rng.randint(50, 400))] + [rng.choice(absent) for _ in range(20)]
+        rng.shuffle(tail)
+        out.append({"keys": keys, "kdtype": dt, "mod": mod, "init": rng.choice(["default", 5, "array"]) if False else "default",
+                    "batches": [{"rep": rep, "n": n, "tail": tail}, [rng.choice(keys) for _ in range(5)]], "pseed": rng.randint(0, 999)})
     return out
 
 
@@ -70,17 +89,34 @@ def key(p):
     return engine.stable_hash([p["keys"], p["mod"], p["init"], p["batches"]])
 
 
+def _flat(b):
+    return (b["rep"] + b["tail"]) if isinstance(b, dict) else b
+
+
 def nontrivial(p):
-    return len(p["keys"]) >= 2 and any(s in p["keys"] for b in p["batches"] for s in b)
+    return len(p["keys"]) >= 2 and any(s in p["keys"] for b in p["batches"] for s in _flat(b))
 
 
 def distribution(ps):
     return {"n_keys": gens.hist(len(p["keys"]) for p in ps), "mods": gens.hist(p["mod"] for p in ps),
             "init": gens.hist("array" if isinstance(p["init"], list) else p["init"] for p in ps),
             "n_batches": gens.hist(len(p["batches"]) for p in ps),
-            "empty_batches": sum(1 for p in ps for b in p["batches"] if not b),
-            "batches_without_key": sum(1 for p in ps for b in p["batches"] if b and not any(s in p["keys"] for s in b)),
-            "non_key_samples": sum(1 for p in ps for b in p["batches"] for s in b if s not in p["keys"])}
+            "empty_batches": sum(1 for p in ps for b in p["batches"] if not b), "big_batches(>10000 samples)": sum(1 for p in ps for b in p["batches"] if isinstance(b, dict)),
+            "batches_without_key": sum(1 for p in ps for b in p["batches"] if b and not any(s in p["keys"] for s in _flat(b))),
+            "non_key_samples": sum(1 for p in ps for b in p["batches"] for s in _flat(b) if s not in p["keys"])}
+
+
+def _batches(p):
+    """batches as plain lists; a big batch is stored compactly as {"rep": [...], "n": N, "tail": [...]} = N samples cycling through
+    `rep`, followed by `tail`"""
+    out = []
+    for b in p["batches"]:
+        if isinstance(b, dict):
+            rep = b["rep"]
+            out.append([rep[i % len(rep)] for i in range(b["n"])] + list(b["tail"]))
+        else:
+            out.append(b)
+    return out
 
 
 def _mk(p):
@@ -105,17 +141,18 @@ def run_impl(p):
     def g():
         c, kd = _mk(p)
         trace = []
-        for b in p["batches"]:
+        batches = _batches(p)
+        for b in batches:
             c.count(np.array(b, dtype=kd) if b else np.array([], dtype=kd))
             trace.append(_totals(c, p, kd))
         # metamorphic: same multiset of samples, permuted and re-split
         rnd = random.Random(p["pseed"])
-        alls = [s for b in p["batches"] for s in b]
+        alls = [s for b in batches for s in b]
         rnd.shuffle(alls)
         c2, _ = _mk(p)
         i = 0
         while i < len(alls):
-            j = i + rnd.randint(1, 4)
+            j = i + rnd.randint(1, max(4, len(alls) // 40))
             c2.count(np.array(alls[i:j], dtype=kd)); i = j
         c3, _ = _mk(p)
         c3.count(list(alls))
@@ -128,7 +165,7 @@ def oracle(p):
     init = p["init"]
     d = {k: (0 if init == "default" else (init[i] if isinstance(init, list) else init)) for i, k in enumerate(p["keys"])}
     trace = []
-    for b in p["batches"]:
+    for b in _batches(p):
         for s in b:
             if s in d:
                 d[s] += 1
@@ -138,8 +175,8 @@ def oracle(p):
 
 
 def lean_request(p):
-    if isinstance(p["init"], float):
-        return None
+    if isinstance(p["init"], float) or any(isinstance(b, dict) for b in p["batches"]):
+        return None          # (big batches: implementation vs reference tally only)
     vals = 0 if p["init"] == "default" else p["init"]
     ops = []
     for b in p["batches"]:
